@@ -259,6 +259,11 @@ def apply(u, T):
         return u
     if k == "case":
         return t_case(u, T[1], T[2])
+    if k == "norm" and T[1] == "default-port":
+        return same_but(a, b, "port") and a["port"] is None and b["port"] in (80, 443) and bool(a["host"])
+    if k == "norm":
+        lab = {"amp-label": "amp"}.get(T[1], T[1])
+        return same_but(a, b, "host") and bool(a["host"]) and b["host"] == lab + "." + a["host"]
     if k == "port":
         return t_port(u, T[1])
     if k == "label":
@@ -299,11 +304,18 @@ def same_but(a, b, *keys):
 def applies(u, v, T):
     """urllib agrees that v is u with exactly the change T names"""
     k = T[0]
-    if k in ("id", "case", "norm"):
+    if k in ("id", "case"):
+        return True
+    if k == "norm" and T[1] not in ("default-port", "www", "m", "mobile", "amp-label", "www2"):
         return True
     a, b = std(u), std(v)
     if a is None or b is None:
         return False
+    if k == "norm" and T[1] == "default-port":
+        return same_but(a, b, "port") and a["port"] is None and b["port"] in (80, 443) and bool(a["host"])
+    if k == "norm":
+        lab = {"amp-label": "amp"}.get(T[1], T[1])
+        return same_but(a, b, "host") and bool(a["host"]) and b["host"] == lab + "." + a["host"]
     if k == "port":
         want = None if T[1] is None else int(T[1])
         return same_but(a, b, "port") and b["port"] == want and bool(a["host"])
